@@ -123,8 +123,8 @@ class Monitor:
             kind = self._file_kind[filename] = self._classify(filename)
         if kind == '-':
             return DISABLE
-        if not self.enabled:
-            return None
+        if not self.enabled or line <= 0:
+            return None          # line 0 = the implicit start of a module without statements: not a source line
         if kind == 'S':
             self.nS += 1
             self.last_S = (filename, code.co_name, line)
